@@ -112,7 +112,7 @@ func c02Sink(c *Ctx, p *Prog, m *Model) {
 		okDest := false
 		for _, s := range sources(call.Common().Value) {
 			if cl, ok := s.(*ssa.Call); ok {
-				if cal := calleeOf(cl); cal != nil && cal.Name() == "findWriter" {
+				if cal := calleeOf(cl); cal != nil && nm(cal) == "findWriter" {
 					okDest = true
 				}
 			}
@@ -121,7 +121,7 @@ func c02Sink(c *Ctx, p *Prog, m *Model) {
 			r.Bad("R02.2", key, p.Pos(instrPos(call)), "the destination written to is not the one selected by findWriter for the record's severity")
 			continue
 		}
-		r.Ok("R02.2", key, p.Pos(instrPos(call)), "exactly one Write of the payload parameter %s to the destination selected by findWriter", prm.Name())
+		r.Ok("R02.2", key, p.Pos(instrPos(call)), "exactly one Write of the payload parameter %s to the destination selected by findWriter", nm(prm))
 	}
 	// fan-out
 	lw := p.Method(p.Slog, "LWs", "Write")
@@ -130,7 +130,7 @@ func c02Sink(c *Ctx, p *Prog, m *Model) {
 	} else {
 		var invs []*ssa.Call
 		for _, cs := range callsIn(lw) {
-			if call, ok := cs.(*ssa.Call); ok && call.Common().IsInvoke() && call.Common().Method.Name() == "Write" {
+			if call, ok := cs.(*ssa.Call); ok && call.Common().IsInvoke() && nm(call.Common().Method) == "Write" {
 				invs = append(invs, call)
 			}
 		}
@@ -172,7 +172,7 @@ func wrapperForwarding(c *Ctx, p *Prog, rule string) {
 		}
 		own := false
 		for i := 0; i < nt.NumMethods(); i++ {
-			if nt.Method(i).Name() == "Write" {
+			if nm(nt.Method(i)) == "Write" {
 				own = true
 			}
 		}
@@ -191,7 +191,7 @@ func wrapperForwarding(c *Ctx, p *Prog, rule string) {
 			cc := cs.Common()
 			name := invokeName(cs)
 			if cal := calleeOf(cs); cal != nil {
-				name = cal.Name()
+				name = nm(cal)
 			}
 			if name == "Write" && len(cc.Args) > 0 && cc.Args[len(cc.Args)-1] == ssa.Value(fn.Params[1]) {
 				n++
@@ -204,7 +204,7 @@ func wrapperForwarding(c *Ctx, p *Prog, rule string) {
 			}
 			name := invokeName(cs)
 			if cal := calleeOf(cs); cal != nil {
-				name = cal.Name()
+				name = nm(cal)
 			}
 			return name == "Write"
 		})
@@ -254,7 +254,7 @@ func c02Newline(c *Ctx, p *Prog, m *Model) {
 		}
 		last := t.Calls[len(t.Calls)-1]
 		ok := false
-		if cal := calleeOf(last); cal != nil && (cal.Name() == "pcAppendByte" || cal.Name() == "WriteByte") {
+		if cal := calleeOf(last); cal != nil && (nm(cal) == "pcAppendByte" || nm(cal) == "WriteByte") {
 			if v, isC := constInt(last.Common().Args[len(last.Common().Args)-1]); isC && v == '\n' {
 				ok = true
 			}
@@ -462,12 +462,12 @@ func c02NoFailure(c *Ctx, p *Prog, m *Model, tags string) {
 					}
 					guarded := false
 					for _, g := range guardsOf(b) {
-						if strings.Contains(m.guardDesc(g), "len(param "+prm.Name()+")") {
+						if strings.Contains(m.guardDesc(g), "len(param "+nm(prm)+")") {
 							guarded = true
 						}
 					}
 					if !guarded {
-						problems = append(problems, fmt.Sprintf("%s[%s] at %s is not guarded by a length test", prm.Name(), m.valDesc(x.Index), p.Pos(instrPos(x))))
+						problems = append(problems, fmt.Sprintf("%s[%s] at %s is not guarded by a length test", nm(prm), m.valDesc(x.Index), p.Pos(instrPos(x))))
 					}
 				}
 			}
@@ -486,13 +486,13 @@ func panicMsg(x *ssa.Panic) string {
 		return s
 	}
 	if prm, ok := v.(*ssa.Parameter); ok {
-		return "<param " + prm.Name() + ">"
+		return "<param " + nm(prm) + ">"
 	}
 	if g, ok := globalLoad(v); ok {
-		return "<" + g.Name() + ">"
+		return "<" + nm(g) + ">"
 	}
 	if c, ok := v.(*ssa.Call); ok {
-		if cal := calleeOf(c); cal != nil && (cal.Name() == "Sprintf" || cal.Name() == "Errorf") && len(c.Common().Args) > 0 {
+		if cal := calleeOf(c); cal != nil && (nm(cal) == "Sprintf" || nm(cal) == "Errorf") && len(c.Common().Args) > 0 {
 			if s, ok := constString(c.Common().Args[0]); ok {
 				return s
 			}
